@@ -33,8 +33,7 @@ theorem C03_to_code_reads_like_data_full (v : Ver) (T : OpTable) (F : FlagTable)
     (ann nested : Bool) (addLine : Option AdditionalLine) (addArgs : List Arg) (c' : RawCode)
     (h : fromCodeDataGo v F enc (.mk blocks fname fln name ss tp fv ann nested addLine addArgs) = .ok c')
     (hkind : ∀ ins ∈ blocks.flatten, KindOK T ins) (hopb : ∀ ins ∈ blocks.flatten, ins.op < 256)
-    (henc : ∀ args0 args fuel, relax v blocks.flatten (blockStarts blocks 0) fuel args0 = .ok args →
-      ∀ p ∈ blocks.flatten.zip args, Encodable p.1 p.2)
+    (henc : ∀ args, finalArgs v blocks addArgs fv tp = .ok args → ∀ p ∈ blocks.flatten.zip args, Encodable p.1 p.2)
     (hst : ∀ s ∈ blockStarts blocks 0, s < blocks.flatten.length) (hne : blocks.flatten ≠ [])
     (hlines : v.is310 = false → ∀ ins ∈ blocks.flatten, ins.line.isSome)
     (hal : v.is310 = false → ∀ a, addLine = some a → a.line.isSome) :
